@@ -147,12 +147,13 @@ func runBucketCases(t *testing.T, r *rep.Reporter, env instrEnv) {
 			probed := false
 			if !cr.Any() && (sc.VClock || sc.Keys+2 <= sc.Max) {
 				probed = true
-				if sc.VClock {
-					verifkit.AdvanceClock(time.Hour)
-				}
 				for _, k := range []string{key(0), "fresh"} {
 					if cr.Any() {
 						break
+					}
+					if sc.VClock {
+						// every bucket (also the one the previous probe just used) is idle for an hour
+						verifkit.AdvanceClock(time.Hour)
 					}
 					cr.Guard(func() {
 						got := 0
